@@ -458,6 +458,39 @@ var transformNames = map[string]bool{"Shift": true, "Expand": true, "Reverse": t
 func uniform(info *types.Info, rs *ast.RangeStmt, f types.Object) string {
 	par := core.Parents(rs.Body)
 	why := ""
+	// everything computed from the element inside the loop body (`r := f.Loc.Region()`) looks at the element too
+	derived := map[types.Object]bool{f: true}
+	for changed := true; changed; {
+		changed = false
+		for o, defs := range core.Assigns(info, rs.Body) {
+			if derived[o] {
+				continue
+			}
+			for _, d := range defs {
+				var rhs ast.Node = d.RHS
+				if d.RHS == nil && d.Call != nil {
+					rhs = d.Call
+				}
+				if rhs == nil {
+					continue
+				}
+				for dv := range derived {
+					if core.UsesObj(info, rhs, dv) {
+						derived[o] = true
+						changed = true
+					}
+				}
+			}
+		}
+	}
+	looksAtElement := func(e ast.Node) bool {
+		for dv := range derived {
+			if core.UsesObj(info, e, dv) {
+				return true
+			}
+		}
+		return false
+	}
 	ast.Inspect(rs.Body, func(n ast.Node) bool {
 		c, ok := n.(*ast.CallExpr)
 		if !ok || why != "" {
@@ -481,7 +514,7 @@ func uniform(info *types.Info, rs *ast.RangeStmt, f types.Object) string {
 				if cond == nil {
 					for _, cc := range x.Body.List {
 						for _, e := range cc.(*ast.CaseClause).List {
-							if core.UsesObj(info, e, f) {
+							if looksAtElement(e) {
 								cond = e
 							}
 						}
@@ -491,7 +524,7 @@ func uniform(info *types.Info, rs *ast.RangeStmt, f types.Object) string {
 				why = "the coordinate transformation " + fn.Name() + " sits in a type switch inside the loop: it is applied to only some features"
 				return false
 			}
-			if cond != nil && core.UsesObj(info, cond, f) {
+			if cond != nil && looksAtElement(cond) {
 				why = "the coordinate transformation " + fn.Name() + " is applied only when `" + types.ExprString(cond) + "` holds for the feature: the other features keep their old coordinates"
 				return false
 			}
